@@ -349,7 +349,14 @@ func c17Instantiations(w *rt.W, s string) {
 		name string
 		run  func() [4]out
 	}
-	b := func() []byte { return []byte(s) }
+	// every byte slice handed to a parser is kept and compared with the content afterwards
+	var handed [][]byte
+	b := func() []byte {
+		x := make([]byte, len(s), len(s)+8)
+		copy(x, s)
+		handed = append(handed, x)
+		return x
+	}
 	entries := []entry{
 		{"date.DefaultParser(0)", func() [4]out {
 			return [4]out{mk(date.DefaultParser(s, 0)), mk(date.DefaultParser(b(), 0)), mk(date.DefaultParser(nStr(s), 0)), mk(date.DefaultParser(nBytes(b()), 0))}
@@ -414,6 +421,13 @@ func c17Instantiations(w *rt.W, s string) {
 				w.Fail(key, "instantiations", rt.Args("input", s, "entry", e.name, "instantiation", names[i]), fmt.Sprintf("%s: (%s, %q)", names[i], o[i].val, o[i].err), fmt.Sprintf("string: (%s, %q)", o[0].val, o[0].err), e.name+": parsing the same content as "+names[i]+" and as string must give identical values and error messages")
 			}
 		}
+		for _, x := range handed {
+			if string(x) != s || string(x[:cap(x)][len(x):]) != "\x00\x00\x00\x00\x00\x00\x00\x00" {
+				w.Fail("input-modified-by-generic-parser", "instantiations", rt.Args("input", s, "entry", e.name), fmt.Sprintf("%q", x[:cap(x)]), fmt.Sprintf("%q", s), e.name+" modified the byte slice it was given")
+				break
+			}
+		}
+		handed = handed[:0]
 		if o[0].err == "" {
 			w.ClassN("instantiation-agreement-on-accepted", 1)
 		} else {
